@@ -143,6 +143,12 @@ func Monitor(evs []Ev, complete bool) [][2]string {
 				if !w.fired {
 					may[w.id] = true
 				}
+				// a request for an id that has a pending timer replaces it: while that request is
+				// being installed the old timer may already be gone
+				if must[w.id] {
+					delete(must, w.id)
+					may[w.id] = true
+				}
 			}
 			rep := map[string]bool{}
 			for _, id := range e.IDs {
